@@ -640,23 +640,47 @@ func checkFreshScratchState(c *Ctx, rule string, pkgs []string) {
 						if un, ok := r.(*ast.UnaryExpr); ok && un.Op == token.AND {
 							r = ast.Unparen(un.X)
 						}
-						cl, ok := r.(*ast.CompositeLit)
-						if !ok {
-							how, pos = types.ExprString(as.Rhs[i]), as.Pos()
-							continue
-						}
-						ok = true
-						for _, el := range cl.Elts {
-							kv, isKV := el.(*ast.KeyValueExpr)
-							if !isKV {
-								ok = false
-								continue
+						freshLit := func(e ast.Expr) bool {
+							e = ast.Unparen(e)
+							if un, ok := e.(*ast.UnaryExpr); ok && un.Op == token.AND {
+								e = ast.Unparen(un.X)
 							}
-							if k, isID := kv.Key.(*ast.Ident); isID && (k.Name == "Plan" || k.Name == "Changes") {
-								ok = false
+							cl, ok := e.(*ast.CompositeLit)
+							if !ok {
+								return false
+							}
+							for _, el := range cl.Elts {
+								kv, isKV := el.(*ast.KeyValueExpr)
+								if !isKV {
+									return false
+								}
+								if k, isID := kv.Key.(*ast.Ident); isID && (k.Name == "Plan" || k.Name == "Changes") {
+									return false
+								}
+							}
+							return true
+						}
+						isFresh := freshLit(r)
+						// a package-local constructor every return of which is such a literal
+						if call, isCall := r.(*ast.CallExpr); isCall && !isFresh {
+							if g := c.FuncInfoOf(calleeOf(info, call)); g != nil && g.Decl.Body != nil && g.Pkg == fi.Pkg {
+								rets, ok2 := 0, 0
+								ast.Inspect(g.Decl.Body, func(q ast.Node) bool {
+									if _, isLit := q.(*ast.FuncLit); isLit {
+										return false
+									}
+									if rt, isRet := q.(*ast.ReturnStmt); isRet && len(rt.Results) == 1 {
+										rets++
+										if freshLit(rt.Results[0]) {
+											ok2++
+										}
+									}
+									return true
+								})
+								isFresh = rets > 0 && rets == ok2
 							}
 						}
-						if ok {
+						if isFresh {
 							fresh++
 						} else {
 							how, pos = types.ExprString(as.Rhs[i]), as.Pos()
